@@ -327,6 +327,7 @@ func init() {
 		NotDecided:  "Equivalence with an RFC 6902 evaluator: op order across hunks, the index arithmetic of the context tests.",
 		Assumptions: commonAssumptions,
 		Run: func(w *World, r *Report) {
+			ruleCtxIndex(w, r, w.Pkg(pathV2))
 			v2 := w.Pkg(pathV2)
 			rulePtr(w, r, v2, "v2")
 			rulePair(w, r, v2, "v2")
@@ -340,6 +341,7 @@ func init() {
 		NotDecided:  "The full index case analysis of the context inference (which of up to three ops are context for every op sequence).",
 		Assumptions: commonAssumptions,
 		Run: func(w *World, r *Report) {
+			ruleCtxIndex(w, r, w.Pkg(pathV2))
 			v2 := w.Pkg(pathV2)
 			ruleOpSubset(w, r, v2)
 			ruleParent(w, r, v2)
@@ -359,6 +361,7 @@ func init() {
 		Run: func(w *World, r *Report) {
 			v2 := w.Pkg(pathV2)
 			ruleMergeHunkDiff(w, r, v2)
+			ruleVoidArg(w, r, v2)
 			ruleMergeRender(w, r, v2)
 			rulePathFresh(w, r, v2, "v2")
 			ruleDeleteVoid(w, r, newPatchFamily(w, v2, "v2"))
